@@ -19,7 +19,9 @@ import (
 	corev1 "k8s.io/api/core/v1"
 	"k8s.io/apimachinery/pkg/api/resource"
 	metav1 "k8s.io/apimachinery/pkg/apis/meta/v1"
+	"k8s.io/apimachinery/pkg/runtime"
 	k8sfake "k8s.io/client-go/kubernetes/fake"
+	k8stesting "k8s.io/client-go/testing"
 	galaxyapi "tkestack.io/galaxy/pkg/api/galaxy"
 	"tkestack.io/galaxy/pkg/api/galaxy/constant"
 	"tkestack.io/galaxy/pkg/galaxy"
@@ -157,6 +159,22 @@ func NewDaemon(e *Env, conf galaxy.JsonConf, netConfDir string, pods []*corev1.P
 	return &Daemon{G: g, Kube: kube, Env: e}, nil
 }
 
+// AnyPod makes the fake API server answer every pod Get that would be NotFound with a copy of the template.
+func (d *Daemon) AnyPod(tmpl *corev1.Pod) {
+	d.Kube.PrependReactor("get", "pods", func(a k8stesting.Action) (bool, runtime.Object, error) {
+		ga, ok := a.(k8stesting.GetAction)
+		if !ok {
+			return false, nil, nil
+		}
+		if _, err := d.Kube.Tracker().Get(corev1.SchemeGroupVersion.WithResource("pods"), a.GetNamespace(), ga.GetName()); err == nil {
+			return false, nil, nil
+		}
+		p := tmpl.DeepCopy()
+		p.Name, p.Namespace = ga.GetName(), a.GetNamespace()
+		return true, p, nil
+	})
+}
+
 // Pod builds a pod object.
 func Pod(ns, name string, annotations map[string]string, wantENI bool) *corev1.Pod {
 	p := &corev1.Pod{ObjectMeta: metav1.ObjectMeta{Name: name, Namespace: ns, Annotations: annotations},
@@ -199,4 +217,24 @@ func StateFileExists(containerID string) bool {
 func RemoveState(containerID string) {
 	os.Remove(filepath.Join("/var/lib/cni/galaxy", containerID))
 	os.Remove(filepath.Join("/var/lib/cni/galaxy/port", containerID))
+}
+
+// NewEnvNoPlugins builds an environment without plugin binaries (network types resolve to nothing).
+func NewEnvNoPlugins() (*Env, error) {
+	base := "/dev/shm"
+	if _, err := os.Stat(base); err != nil {
+		base = os.TempDir()
+	}
+	dir, err := os.MkdirTemp(base, "fakecni-")
+	if err != nil {
+		return nil, err
+	}
+	e := &Env{Dir: dir, BinDir: filepath.Join(dir, "bin"), CNIPath: filepath.Join(dir, "bin")}
+	for _, d := range []string{"bin", "count", "fail", "conf"} {
+		if err := os.MkdirAll(filepath.Join(dir, d), 0755); err != nil {
+			return nil, err
+		}
+	}
+	os.Setenv("FAKECNI_DIR", dir)
+	return e, nil
 }
